@@ -320,6 +320,15 @@ func runShard(rs runSpec, bin string, prop, tier string, seed int64, shard, nsha
 }
 
 func main() {
+	if len(os.Args) == 2 && os.Args[1] == "dump-mins" {
+		out := map[string]map[string]map[string]int64{}
+		for id, p := range props {
+			out[id] = map[string]map[string]int64{"quick": p.Min("quick"), "thorough": p.Min("thorough")}
+		}
+		b, _ := json.MarshalIndent(out, "", " ")
+		fmt.Println(string(b))
+		return
+	}
 	if len(os.Args) < 3 {
 		fmt.Fprintln(os.Stderr, "usage: vcheck <property> quick|thorough | vcheck <property> --replay <file>")
 		os.Exit(2)
